@@ -17,7 +17,7 @@ try:
         if os.path.exists('/repo/' + f) and not os.path.exists(os.path.join(wt, f)): shutil.copy('/repo/' + f, os.path.join(wt, f))
     r = subprocess.run(['git', '-C', wt, 'apply', patch], capture_output=True, text=True)
     if r.returncode: print('PATCH DOES NOT APPLY:', r.stderr); sys.exit(2)
-    env = dict(os.environ, VERIF_REPO=wt, VERIF_SEED=seed)
+    env = dict(os.environ, VERIF_REPO=wt, VERIF_SEED=seed, VERIF_EVIDENCE_DIR=os.path.join(ROOT, '.work', 'seed-evidence'))
     for p in props:
         r = subprocess.run([os.path.join(ROOT, 'check'), 'run', p, '--tier', tier], capture_output=True, text=True, env=env, cwd=ROOT)
         lines = [l for l in r.stdout.split('\n') if l.startswith(('VIOLATION', 'KNOWN-FINDING', p))]
